@@ -14,6 +14,22 @@ PENDING = 'check not built yet (planned, DESIGN §0); it moves to checks when it
 TECH = 'contract-based deductive verification: VCs generated from go/ssa of the real code against //@ contracts, discharged by z3/cvc5'
 
 CHECKS = {
+ 'C03': dict(
+   text='For every function of lexer.go, split.go, token/file.go, char and all 290 functions of parser.go / parse_helpers.go: proof that no runtime panic is possible (every index, slice, nil dereference, type assertion and division is an obligation), that the only panics raised are *Error values and only in functions whose contract says so, that the ten recovery points, parseStatements, NextToken, SplitRawStatements and every public Parse* function let no panic escape (deferred recover closures are executed symbolically on every exceptional exit, with the callee state havocked within its frame), that every loop has a decreasing variant (token position measure; productions used as loop bodies carry a progress postcondition), and that entry points return (node != nil, err is nil or a non-empty MultiError) resp. *Error.',
+   note='Not proved: termination of the mutual recursion between productions (only loops carry variants; the recursion measure `token position at entry, static rank` is not mechanised), bounded stack depth and time complexity (deeply nested input makes the recovery handlers re-skip O(n) tokens each; 3*10^6 "[" exhausts the Go stack). Frames of parser functions are stated as `the lexer object p.Lexer points to at entry, or objects allocated during the call`; Lexer clones held by recovering callers are preserved by ground frame instances. Trusted: fmt.*, strings.*, strconv.ParseUint, utf8.*, unicode.IsSpace, token.QuoteSQLIdent, ast Pos()/End() (verified separately under C19).',
+   ref='§4.C03'),
+ 'C04': dict(
+   text='Producer side of SQL()/Pos()/End()/Walk totality: a ghost well-formedness predicate wf per node, defined per node type as `every field that (*T).SQL() dereferences unconditionally (inferred from ast/sql.go) is non-nil, no interface-typed field holds a typed nil, every non-nil child is wf, every element of a node slice is non-nil and wf` (plus two hand-written invariants: DefaultExpr, number literals). Every production of parser.go is proved to return wf nodes (or nil where it is a tryParse), every recovery handler returns a wf Bad* node, every public Parse* returns a non-nil wf node; the invariant is recomputed after each store into a node and unfolded at each field read, so a production that leaves a required field unset on some path fails its `post:wf` obligation. Walk: every node struct has a walkInternal case and children are wrapped by wrapNode/wrapNodes (typed-nil safe), see C17.',
+   note='Consumer side not yet under contract: that (*T).SQL() is panic-free under wf_T is what the inference assumes (fields used as recv.F.SQL(), paren(_, recv.F) or recv.F.x are required); exprPrec totality over all Expr implementers and the generic helpers sqlOpt/sqlJoin are not yet verified by the SSA engine. Pos()/End() are nil-safe by construction (wrapNode + nodePos, C19). Hand-built ASTs are outside the property.',
+   ref='§4.C04'),
+ 'C05': dict(
+   text='Ghost positions: for every node object the executor keeps ghost.pos/ghost.end equal to the documented position expression of its type over its fields and the ghost positions of its children (agreement of ast/pos.go with the documentation is C19), and a ghost predicate pf = `0 <= pos <= end, every non-nil child is pf and lies inside [pos,end], node-typed fields in declaration order do not overlap (CreateTable exempt), slice elements are pf, ordered, and between the first and the last`. Proved for the productions listed in the evidence (about 250 of 290 functions): the returned node is pf and lies between the first token the production looked at (or the position/node handed in by the caller) and the current token, hence inside the input. Keyword-length arithmetic (End = Pos + n) is discharged against the lexer contract `a keyword or punctuation token is as long as its kind`.',
+   note='Functions whose position clauses are not yet discharged are listed one by one in /repo/verif_contracts_unproved.go and in coverage.clauses_assumed_not_proved: for them pf/range is assumed by callers, not proved (no bounded stand-in is substituted). Token alignment (Pos is the start of a token, End the end of one) and `Pos < End` on error-free paths are not stated separately. Mutation of already-built nodes at the five in-place sites is handled by recomputing the ghosts at the store; that no parent holds a stale snapshot is not mechanised.',
+   ref='§4.C05'),
+ 'C09': dict(
+   text='Error contract of the parser: every production leaves len(errors) monotone; lookahead helpers restore the lexer state exactly and leave errors untouched (a lexical error propagates, it is not swallowed); handleError appends exactly one error and every recovery handler goes through it exactly once before building its Bad node (len(errors) == old + 1); every *Error is built from a position pair with 0 <= Pos <= End <= len(input) (precondition of errorfAtToken / errorfAtPosition / panicfAtToken, checked at each of the ~170 call sites, and of File.Position); public Parse* return a nil error iff no error was recorded and the current token is <eof> at len(input), and a MultiError with at least one element otherwise.',
+   note='"At least one MultiError element per BadNode in the tree" is proved in the form: each of the four handlers records exactly one error per Bad node it builds and nothing else allocates ast.BadNode (checked syntactically over the SSA); the count over the reachable tree is the sum over handler calls and is not itself mechanised.',
+   ref='§4.C09'),
  'C12': dict(
    text='Proof, for all inputs and all iterations, of the loop contract of SplitRawStatements over the contract of Lexer.NextToken: every piece is input[Pos:End], pieces are in range, strictly ordered and disjoint, every piece but the last ends exactly at a ";" token, the text between two pieces is that ";" plus whitespace only (this clause is the recorded known finding: a comment directly after ";" falls between pieces), the function fails only with the lexer\'s *Error and, when it succeeds, the whole input was lexed to <eof> (so it fails exactly when the lexer fails).',
    note='Rests on the NextToken/nextToken/consumeToken contracts (verified under C13/C03, same engine) and on the trusted contracts of utf8.DecodeRuneInString and unicode.IsSpace. "No piece contains a \';\' token" is proved in the form: each loop iteration handles exactly one token and cuts at every token of kind ";" (s[End]==\';\' for every cut); the token-sequence ghost statement is not mechanised. spaceOnly constrains ASCII bytes only (non-ASCII bytes of the gap are accepted when unicode.IsSpace accepted their rune).',
